@@ -127,7 +127,7 @@ pub fn kinds() -> Vec<Kind> {
             f_test("t1", accept)
         )
     };
-    vec![
+    let mut all = vec![
         Kind {
             name: "valid",
             arg: "valid.roto",
@@ -312,7 +312,32 @@ pub fn kinds() -> Vec<Kind> {
             tests: vec![],
             fns: fns(&[]),
         },
-    ]
+    ];
+    // many rejecting test blocks: the exit status is a byte, "failure" must not be
+    // the COUNT of failures squeezed into it (256 rejecting blocks would read as
+    // success: seeded change C19-5)
+    let leak = |s: String| -> &'static str { Box::leak(s.into_boxed_str()) };
+    for (n_rej, n_acc) in [(2usize, 0usize), (255, 1), (256, 0), (256, 5), (257, 0), (512, 3)] {
+        let name = leak(format!("rejecting_{n_rej}_accepting_{n_acc}"));
+        let mut text = f_main() + &f_other();
+        let mut tests = vec![];
+        for i in 0..n_rej + n_acc {
+            // accepting blocks are spread between the rejecting ones
+            let accept = n_acc > 0 && i % ((n_rej + n_acc) / n_acc) == 0 && tests.iter().filter(|(_, a)| *a).count() < n_acc;
+            let tname = format!("t{i:03}");
+            text += &f_test(&tname, accept);
+            tests.push((leak(format!("t:{tname}")), accept));
+        }
+        all.push(Kind {
+            name,
+            arg: leak(format!("{name}.roto")),
+            files: vec![(leak(format!("{name}.roto")), text)],
+            compiles: true,
+            tests,
+            fns: main_other(),
+        });
+    }
+    all
 }
 
 /// sub-command forms: the arguments before / after the file
